@@ -34,6 +34,7 @@ type Engine struct {
 	specFiles []string
 
 	mu          sync.Mutex
+	readsMu     sync.Mutex
 	assumptions map[string]bool
 
 	// opcode implementers etc.
